@@ -109,6 +109,14 @@ Example C11_max_conns_example :
   admittedb cfg_one hinit [(0, Open 0); (50, Open 1); (90, Close 0); (120, Open 0)] = true.
 Proof. vm_compute. split; reflexivity. Qed.
 
+(* the effective limit: max_connections if set, else the passive unhealthy_connection_count, whatever
+   fail_duration and max_fails are (they are not arguments) *)
+Theorem C11_effective_limit : forall passive_on ucc raw,
+  (raw <> 0 -> effective_max_conns passive_on ucc raw = raw) /\
+  (0 < ucc -> effective_max_conns true ucc 0 = ucc) /\
+  effective_max_conns false ucc 0 = 0.
+Proof. exact effective_limit_spec. Qed.
+
 (* ---- non-vacuity ---- *)
 Definition ex_cfg : hcfg := mkH true 200 2 [[0%nat]; [1%nat]] [0; 0].
 Definition ex_hist : list tev := [(0, DialFail 0); (30, DialFail 0); (60, Open 1); (400, Close 1); (410, Probe 1 false)].
@@ -131,4 +139,5 @@ Print Assumptions C11_retry_schedule.
 Print Assumptions C11_retry_schedule_ideal.
 Print Assumptions C11_active_marks.
 Print Assumptions C11_max_conns_respected.
+Print Assumptions C11_effective_limit.
 Print Assumptions C11_max_conns_unenforced_if_uncounted.
